@@ -33,8 +33,8 @@ func genC17(r *Rand, tier string, i int) *h.Scenario {
 		c.Notifier = 1 + r.Intn(2)
 	}
 	// the late-successor history is an open finding (F4b): keep most of the budget outside it
-	mode := r.Weighted(5, 4, 1, 3) // 0 one successor, 1 several successors of one predecessor, 2 late successor, 3 chain
-	sc.Mode = []string{"single", "fanout", "late", "chain"}[mode]
+	mode := r.Weighted(5, 4, 1, 3, 2) // 0 one successor, 1 several successors of one predecessor, 2 late successor, 3 chain, 4 two predecessors
+	sc.Mode = []string{"single", "fanout", "late", "chain", "twopred"}[mode]
 	newBar := func(after int) int {
 		b := h.BarSpec{QueueAfter: after, Total: int64(r.Range(1, 9)), Filler: r.Weighted(3, 1, 1, 3), RmOnComp: r.Bool(0.3), NoPop: r.Bool(0.3)}
 		if r.Bool(0.2) {
@@ -82,6 +82,10 @@ func genC17(r *Rand, tier string, i int) *h.Scenario {
 		by = append(by, newBar(-1))
 	}
 	pred := newBar(-1)
+	pred2 := -1
+	if mode == 4 {
+		pred2 = newBar(-1)
+	}
 	if r.Bool(0.5) {
 		by = append(by, newBar(-1))
 	}
@@ -138,6 +142,19 @@ func genC17(r *Rand, tier string, i int) *h.Scenario {
 			ops = append(ops, h.Op{K: h.OpBarWait, Bar: pred}, h.Op{K: h.OpSleep, D: 6 * period})
 		}
 		addNow(pred)
+	case 4:
+		// two predecessors that finish between the same two render cycles: both hand over in one flush
+		addNow(pred)
+		addNow(pred2)
+		if r.Bool(0.3) {
+			addNow(pred)
+		}
+		move()
+		ops = append(ops, finish(pred)...)
+		if r.Bool(0.2) {
+			ops = append(ops, sleep())
+		}
+		ops = append(ops, finish(pred2)...)
 	case 3:
 		s1 := addNow(pred)
 		s2 := addNow(s1)
@@ -293,7 +310,8 @@ func judgeC17(hi *Hist) []*Violation {
 			}
 			for range facts {
 				for _, q := range facts {
-					if q.Queued && frames[first].Has(q.Idx) && !frames[lastPred].Has(q.Idx) {
+					// (a successor promoted earlier carries its own predecessor's priority as well)
+					if q.Queued && (frames[first].Has(q.Idx) || frames[lastPred].Has(q.Idx)) {
 						prio[q.Idx] = prio[q.Pred]
 					}
 				}
